@@ -121,6 +121,27 @@ def _ops(repo: Repo, oe):
     ]
 
 
+def _class_insert_op(repo: Repo, oe, clsname: str):
+    """`p.insert(1, <one opcode of class clsname>)`: whichever class the new opcode has, the views follow the edit."""
+    ref = oe.ref(repo.cls(clsname))
+
+    def build():
+        last = None
+        for args in ((), (1,), ("x",), (b"x",), (1.5,), ("m", "n")):
+            try:
+                op = ref(*args)
+                op.sa_attr("data")  # an opcode that serialises
+                return op
+            except PyRaise as pe:
+                last = pe
+        raise last
+
+    def fn(P):
+        P.sa_attr("insert")(1, build())
+
+    return (f"insert(1, {clsname.split('.')[-1]}(...))", fn)
+
+
 def run_sequence(repo: Repo, blabel: str, base: bytes, seq: Tuple[int, ...]) -> List[Tuple[str, str]]:
     from .props.c06 import _fresh_objeval
 
@@ -134,7 +155,10 @@ def run_sequence(repo: Repo, blabel: str, base: bytes, seq: Tuple[int, ...]) -> 
     devs: List[Tuple[str, str]] = []
     done = []
     for k in seq:
-        label, fn = ops[k]
+        if isinstance(k, tuple):
+            label, fn = _class_insert_op(repo, oe, k[1])
+        else:
+            label, fn = ops[k]
         done.append(label)
         try:
             fn(P)
@@ -148,7 +172,7 @@ def run_sequence(repo: Repo, blabel: str, base: bytes, seq: Tuple[int, ...]) -> 
         want = _views(repo, oe, fresh)
         for name in ("program", "summaries", "verdict", "bytes"):
             if got[name] != want[name]:
-                op_kind = label.split("(")[0].split(" ")[0].split("[")[0] or label
+                op_kind = (label.split("(")[0].split(" ")[0].split("[")[0] or label) if not isinstance(k, tuple) else "insert-of-class:" + k[1].split(".")[-1]
                 devs.append((f"stale-{name}:{op_kind}", f"on {blabel}, after `{' ; '.join(done)}` (all views read before and between the edits) the {name} is {str(got[name])[:110]}, a fresh Pickled with the same opcodes gives {str(want[name])[:110]}"))
         if got["bytes"][0] == "ok":
             try:
@@ -193,6 +217,11 @@ def explore(repo: Repo, tier: str):
     if tier == "thorough":
         seqs += [s for s in itertools.product(range(n_ops), repeat=3) if len(set(s)) == 3][::3]
     items = [(bl, b, s) for bl, b in _bases() for s in seqs]
+    # one insert of an opcode of every class the package defines (an edit is an edit whatever the class of the new opcode)
+    from .model import opcode_registry
+
+    b0 = _bases()[0]
+    items += [(b0[0], b0[1], (("class", o.cls.qualname),)) for o in opcode_registry(repo)[0]]
     jobs = min(int(os.environ.get("SA_JOBS", "16")), os.cpu_count() or 1)
     chunks = [items[i::jobs] for i in range(jobs)]
 
